@@ -79,7 +79,7 @@ package main
 // roWanted: a replica on a read-only mount is always wanted (never trashed).
 //@ spec macro roWanted(slots) bool = forall k int :: 0 <= k && k < len(slots) && slots[k].repl != nil && slots[k].mnt.ReadOnly ==> slots[k].want
 
-//@ func Balancer.balanceBlock property C05 safety -bounds,-makeslice
+//@ func Balancer.balanceBlock property C05,C12 safety -bounds,-makeslice
 //@   loop 1: invariant roWanted(slots)
 //@   loop 2: invariant roWanted(slots)
 //@   loop 3: invariant roWanted(slots)
